@@ -194,7 +194,7 @@ __fprintf_chk __printf_chk __sprintf_chk __snprintf_chk __vfprintf_chk __memcpy_
 __memset_chk __strcpy_chk __strcat_chk __vsnprintf_chk __strncpy_chk
 _GLOBAL_OFFSET_TABLE_ __tls_get_addr vsp sigaction sigemptyset sigaddset raise kill getpid
 usleep sleep exit _exit atoi atol strtoul strtoull strtoll qsort rand srand rand_r
-floor ceil sqrt log pow localtime strcasecmp init_and_jump_with_call_fcontext init_and_switch_fcontext init_and_switch_with_call_fcontext switch_with_call_fcontext
+floor ceil sqrt log pow bcmp localtime strcasecmp init_and_jump_with_call_fcontext init_and_switch_fcontext init_and_switch_with_call_fcontext switch_with_call_fcontext
 """.split())
 
 
